@@ -255,13 +255,24 @@ func ctxKeyConst(v ssa.Value, keyType string) (int64, bool) {
 
 // vCtxValue: value is ctx.Value(key) for the given key constant (of keyType).
 func vCtxValue(keyType string, key int64) VPred {
-	return func(v ssa.Value) bool {
+	direct := func(v ssa.Value) bool {
 		c := asCall(v)
 		if c == nil || calleeName(&c.Call) != "(context.Context).Value" || len(c.Call.Args) != 1 {
 			return false
 		}
 		k, ok := ctxKeyConst(c.Call.Args[0], keyType)
 		return ok && k == key
+	}
+	return func(v ssa.Value) bool {
+		if direct(v) {
+			return true
+		}
+		// read through an accessor that is looked through (SecurityPrincipalFrom(r), a new helper): what it returns
+		if c := asCall(v); c != nil && transparentCallee(c) != nil {
+			ok, _ := allOrigins(v, func(o Origin) bool { return direct(o.V) })
+			return ok
+		}
+		return false
 	}
 }
 
